@@ -208,6 +208,7 @@ Inductive body :=
 | ZTkObjDot (core : tensor Z) (arrs : list (mat Z)) (ls : list nat) (copy : bool) (x : operand (F:=Z)) (mode : nat) (keep_dim : bool)
             (expected : res (tk_obs Z * tk_obs Z * bool))        (* the result object, the operand object afterwards, is the operand still a valid Tucker tensor *)
 | QTkObjNorm (tape : list (list Q)) (core : tensor Q) (arrs : list (mat Q)) (ls : list nat) (expected : res (tk_obs Q))
+| ZTkObjSet (core : tensor Z) (arrs : list (mat Z)) (ls newls : list nat) (expected : res (tk_obs Z * bool))
 | ZTkObjCopy (core : tensor Z) (arrs : list (mat Z)) (ls : list nat) (expected : res (tk_obs Z)) (shares : bool)
 | QAlign (norm_t : bool) (rw : list Q) (rfs : list (mat Q)) (tw : list Q) (tfs : list (mat Q)) (tA tB : list (list Q)) (perm : list nat).
 
@@ -431,6 +432,19 @@ Definition agree_body (b : body) : bool :=
           match tucker_normalize_method_h Qops tape th0 cells0 o, e with
           | Ok (th', cells'), Ok eo =>
               tk_tape_okb (shape core) tape (map (fun l => nth l arrs []) ls) && qobs_close (tk_observe th' cells' o) eo
+          | Err, Err => true
+          | _, _ => false
+          end
+      end
+  | ZTkObjSet core arrs ls newls e =>
+      (* obj[1] = [arrs[l] for l in newls]: attributes kept, the object names the new list; does it still pass the validator *)
+      let th0 := mk_theap [core] arrs [ls; newls] in
+      match tucker_new_h th0 [] 0%nat 0%nat with
+      | Err => match e with Err => true | Ok _ => false end
+      | Ok (cells0, o) =>
+          match tucker_setitem_h cells0 o 1%nat 1%nat, e with
+          | Ok cells1, Ok (eo, valid) =>
+              zobs_eqb ztk_struct_eqb (tk_observe th0 cells1 o) eo && Bool.eqb (let '(c, fs) := tobj_read th0 cells1 o in tucker_okb c fs) valid
           | Err, Err => true
           | _, _ => false
           end
